@@ -14,7 +14,8 @@ NA = {
            "under C13.",
 }
 TECH = {
-    "C01": "dominance/fact analysis of insertion guards over MIR (GUARD, NOPANIC-AFTER-WRITE, TOTAL, ENCAPS)",
+    "C01": "dominance/fact analysis of insertion guards over MIR (GUARD, NOPANIC-AFTER-WRITE, TOTAL, ENCAPS) + crate-wide "
+           "bit-matrix write discipline (BITS)",
     "C02": "effect/purity analysis, panic-site discharge, id-source taint and truth-table comparison of derived queries with "
            "their definitions over MIR (PURE, TOTAL, IDSRC, DEFN)",
     "C03": "typestate/schema conformance of the lazy-deletion Dijkstra iterator over MIR dominance + must-facts",
@@ -29,13 +30,17 @@ TECH = {
            "their definitions over MIR",
     "C13": "unsafe-operation inventory with bounds/initialisation obligations discharged by dominance facts, struct/worklist "
            "invariants, contiguity contract and closure-capture import; leak-source pairing",
-    "C14": "must-pass-through admissibility analysis of generator returns + worker-thread structure over MIR",
-    "C15": "nondeterminism-source scan, seed taint, admissibility must-pass and one-insertion-per-branch analysis over MIR",
+    "C14": "must-pass-through admissibility analysis of generator returns + worker-thread structure + bit-matrix write "
+           "discipline over MIR",
+    "C15": "nondeterminism-source scan, seed taint, admissibility must-pass, one-insertion-per-branch analysis and integer "
+           "interval arithmetic on next_f64's constants over MIR",
     "C16": "shape validation of From impls (guarded insertion / validate-before-return / running maximum) over MIR",
     "C17": "join/ownership/partition-template analysis of worker threads over MIR + seed taint",
-    "C18": "layout agreement (row-major index, chunks(order), checked square, initialising loop) over MIR",
-    "C19": "loop-progress (mark-before-continue) analysis + unsafe-obligation discharge over MIR",
-    "C20": "field-coverage analysis of derived comparison/hash/clone impls + ownership of field types",
+    "C18": "layout agreement (row-major index, chunks(order), checked square, initialising loop) + full-scan dataflow of "
+           "eccentricities/diameter/is_connected (no restricting adaptor or sub-slice) over MIR",
+    "C19": "loop-progress (mark-before-continue) analysis + panic-site and unsafe-obligation discharge over MIR",
+    "C20": "field-coverage / field-wise analysis of comparison, hash and clone impls, ownership of field types, canonical "
+           "length template of the bit matrix over all construction sites",
 }
 
 checks = []
